@@ -269,11 +269,21 @@ def gen_value(rng, kind, targets, shared):
         return ["bytes", "00ff41"]
     if kind == "shared":
         return ["shared", rng.randrange(2)]
+    if kind == "subtype":
+        # an instance of a SUBCLASS of a literal type (or a numpy look-alike): it must come back with its exact
+        # type, i.e. it must not be written as the bare text of an int / float / str
+        return ["xv", rng.choice(SUBTYPE_KINDS), rng.randrange(3)]
     raise ValueError(kind)
 
 
+# kinds of harness/mxh/exportvals.py (the catalogue built for C15) whose values are instances of strict subclasses
+# of int / float / str - user classes, IntEnum / StrEnum / IntFlag members, numpy scalars - or look like them
+SUBTYPE_KINDS = ["sub_float", "sub_int", "sub_str", "sub_int_repr", "intenum", "intenum_std", "intflag", "strenum",
+                 "floatenum", "np_float64", "np_str", "np_int64", "np_bool"]
+
 REF_KINDS = (["int"] * 5 + ["obj"] * 8 + ["str", "float", "bool", "none", "bigint", "list", "list", "tuple", "dict",
-                                          "pt", "module", "func", "bytes", "shared", "shared"])
+                                          "pt", "module", "func", "bytes", "shared", "shared",
+                                          "subtype", "subtype", "subtype"])
 
 
 def gen_doc(rng):
@@ -589,6 +599,9 @@ class Builder:
             return getattr(math, spec[1].split(".")[1])
         if k == "bytes":
             return bytes.fromhex(spec[1])
+        if k == "xv":
+            from .. import exportvals
+            return exportvals.make({"kind": spec[1], "alt": spec[2]})
         if k == "shared":
             if spec[1] not in self.shared:
                 self.shared[spec[1]] = [100 + spec[1], "shared"]
@@ -728,7 +741,7 @@ def valuedesc(v, model):
     if v is None or isinstance(v, (bool, int, str, bytes)):
         return [type(v).__name__, repr(v)]
     if isinstance(v, float):
-        return ["float", repr(v)]
+        return [type(v).__name__, repr(v)]       # the exact type: a subclass instance must not come back as float
     if isinstance(v, (list, tuple)):
         return [type(v).__name__, [valuedesc(x, model) for x in v]]
     if isinstance(v, dict):
